@@ -781,3 +781,19 @@ package silence
 //@   ensures [empty-answer-is-not-found] ret2("Silences).Query") == nil && len(ret("Silences).Query")) == 0 ==> result0 == nil && result1 == ErrNotFound
 //@   ensures [first-answer] ret2("Silences).Query") == nil && len(ret("Silences).Query")) > 0 ==> result0 == ret("Silences).Query")[0] && result1 == nil
 //@   noeffect Silences).Query
+
+// ---- C11 / C12 / C18: start-up. The store is built with the configured retention and limits; a snapshot file that
+// does not exist is a fresh start, any other open error is reported; whatever was opened (or handed in as a reader)
+// is loaded through loadSnapshot, and a load error is returned, never swallowed.
+//@ func New
+//@   props C11 C12 C18
+//@   nosafe
+//@   after call errors.New assume res0 != nil
+//@   at call Silences).loadSnapshot assert [loads-what-was-opened-or-given] count("Silences).loadSnapshot") == 0 && arg0 != nil && fresh(arg0)
+//@             && arg0.retention == o.Retention && arg0.limits == o.Limits && arg0.st != nil && len(arg0.st) == 0
+//@             && (called("os.Open") && ret1("os.Open") == nil ? typeis(arg1, *os.File) && unbox(arg1, *os.File) == ret("os.Open") : arg1 == o.SnapshotReader)
+//@   ensures [a-missing-file-is-a-fresh-start-any-other-open-error-is-reported] called("os.Open") && ret1("os.Open") != nil && !ret("os.IsNotExist") ==> result0 == nil && result1 == ret1("os.Open")
+//@   ensures [a-load-error-is-reported] called("Silences).loadSnapshot") && ret("Silences).loadSnapshot") != nil ==> result1 == ret("Silences).loadSnapshot")
+//@   ensures [an-opened-snapshot-is-loaded] called("os.Open") && ret1("os.Open") == nil ==> called("Silences).loadSnapshot")
+//@   ensures [success-yields-a-store] result1 == nil ==> result0 != nil && result0.retention == o.Retention && result0.limits == o.Limits
+//@   noeffect Silences).loadSnapshot Options).validate newMetrics
